@@ -259,7 +259,7 @@ class Frame:
 
 class State:
     __slots__ = ("guard", "frames", "cur_exc", "tid", "status", "result", "prio", "held", "park", "cg", "orig",
-                 "resume")
+                 "resume", "nst")
 
     def __init__(self, guard, frames, tid=0):
         self.guard = guard
@@ -276,6 +276,7 @@ class State:
         # when sibling pieces re-merge to a full share the guard is restored exactly (no formula growth)
         self.orig = ()
         self.resume = False  # Engine B: the parked operation is to be performed now
+        self.nst = 0         # Engine B: number of threads this thread has started on this path (upper bound after merges)
 
     def copy(self, guard=None):
         s = State(self.guard if guard is None else guard, [f.copy() for f in self.frames], self.tid)
@@ -284,6 +285,7 @@ class State:
         s.orig = self.orig
         s.park = self.park
         s.resume = self.resume
+        s.nst = self.nst
         return s
 
     def key(self):
@@ -730,6 +732,8 @@ class VM:
         s.cur_exc = vmerge(g, s.cur_exc, other.cur_exc)
         if s.held != other.held:
             s.held = tuple(h for h in s.held if h in other.held)
+        if other.nst > s.nst:
+            s.nst = other.nst
         restored = False
         if s.orig and other.orig and len(s.orig) == len(other.orig) and s.orig[-1][2] == other.orig[-1][2] \
                 and s.orig[:-1] == other.orig[:-1]:
